@@ -120,11 +120,18 @@ CLAIMED = {
              "reachable, result on the uphill segment, accumulated energy == budget, no arithmetic failure; hard "
              "sphere/dipole: first contact time, quantified over all earlier times; cell bounding potential; the C "
              "file of the periodic Coulomb bound through the C interpreter (laps 0; thorough 0-2): accumulated "
-             "periodic uphill energy == budget.",
+             "periodic uphill energy == budget; MexicanHatPotential.standard_velocity_displacement and its four "
+             "helpers (Lennard-Jones, displaced even power) through a contract cut: the generic geometry for an "
+             "arbitrary radial function (uninterpreted, monotone on both sides of the equilibrium radius, bounded or "
+             "unbounded outside, finite or diverging centre; dimensions 1-2, thorough 1-3) against the piecewise "
+             "uphill energy, and the radial contract (radial form, monotonicity, limits, both inversions exact on "
+             "their side) of LennardJonesPotential and DisplacedEvenPowerPotential (powers 2, 4, 6).",
         note="Ideal reals; rational powers as uninterpreted functions with instantiated laws of real powers "
-             "(PowTheory); Mexican-hat displacement (Lennard-Jones, displaced even power) is not part of this check "
-             "yet and is outside the claim; exactly aligned separations in the C bound (IEEE division by zero) "
-             "outside; counterexamples replayed natively (Python classes, C compiled with gcc).",
+             "(PowTheory); the float constant 2**(1/6) of the Lennard-Jones constructor is replaced by the exact "
+             "sixth root; at a budget exactly equal to a barrier the code returns the end of the following downhill "
+             "stretch (same accumulated energy) - the first such distance is not demanded there; exactly aligned "
+             "separations in the C bound (IEEE division by zero) outside; counterexamples replayed natively "
+             "(Python classes, C compiled with gcc).",
         technique="symbolic execution of the real Python code and of the C source (csym) in QF_UFNRA; z3 nlsat + "
                   "cvc5 portfolio; one validity query per obligation and path",
         design="3.2"),
